@@ -46,6 +46,11 @@ impl Engine for Msim {
         })
     }
 
+    fn hang_is_violation(prop: &str) -> bool {
+        // these properties promise that calls complete (never deadlock / always complete / instead of hanging)
+        matches!(prop, "C02" | "C06")
+    }
+
     fn rule(prop: &str) -> String {
         let common = "case = pool config (max_size, queue mode, 0-2 sync/async hooks per kind) + per-call fault script (ok / error / panic / gated / never) + history of pool operations with optional thread-level pauses at schedule points; distinct by hash of the whole case. Non-trivial: ";
         let r = match prop {
